@@ -20,7 +20,7 @@ from gen_prog import INT, arr_type, arr_val, ival
 from sched import Scheduler
 
 LEVEL = "proof"
-THEOREMS = ["C06_kinds", "C06_noninterference", "C06_generated", "C06_schedule_independent", "C06_sensitive"]
+THEOREMS = ["C06_kinds", "C06_noninterference", "C06_generated", "C06_schedule_independent", "C06_sensitive", "C06_no_other_shared_state"]
 RULE = (
     "2-3 real threads, each running a workload of context blocks, new- and old-style decorated calls, array "
     "checks, PyTree checks with '?' axes and structure names, custom-node flattening, failing checks that "
@@ -48,6 +48,8 @@ def scope_free(s):
     """checks outside every context: each starts from empty bindings, so `n n` accepts (s, s) and rejects
     (s, s + 1) whatever other threads do in the meantime"""
     return [{"op": "check", "l": arr_type("n n"), "x": arr_val([s, s])}, {"op": "check", "l": arr_type("n n"), "x": arr_val([s, s + 1])},
+            {"op": "ctx", "body": [{"op": "check", "l": arr_type("n n+1 2*n"), "x": arr_val([s, s + 1, 2 * s])},
+                                   {"op": "check", "l": arr_type("n+2"), "x": arr_val([s + 1])}, P], "exit": "ret"},
             {"op": "check", "l": arr_type("n *v n"), "x": arr_val([s, 9, s])},
             {"op": "check", "l": {"t": "pytree", "l": arr_type("m"), "s": None}, "x": {"t": "tuple", "xs": [arr_val([s]), arr_val([s + 1])]}},
             {"op": "check", "l": {"t": "pytree", "l": arr_type("m"), "s": None}, "x": {"t": "tuple", "xs": [arr_val([s]), arr_val([s])]}}]
@@ -126,7 +128,24 @@ def functions_for(tier):
     binding dictionaries between two storage accesses"""
     if tier == "thorough":
         return {}
-    return {os.path.join(REPO, "jaxtyping", "_array_types.py"): {"_check_dims", "_check_shape"}}
+    # ... and of the module-level helpers they call (transitively): a scratch value shared by all threads inside such a
+    # helper is exposed to preemption there
+    import ast
+
+    path = os.path.join(REPO, "jaxtyping", "_array_types.py")
+    with open(path) as fh:
+        tree = ast.parse(fh.read())
+    defs = {n.name: n for n in ast.walk(tree) if isinstance(n, ast.FunctionDef)}
+    names, todo = set(), ["_check_dims", "_check_shape"]
+    while todo:
+        f = todo.pop()
+        if f in names or f not in defs:
+            continue
+        names.add(f)
+        for c in ast.walk(defs[f]):
+            if isinstance(c, ast.Call) and isinstance(c.func, ast.Name) and c.func.id in defs and c.func.id not in ("_make_array_cached", "_make_array"):
+                todo.append(c.func.id)
+    return {path: names}
 
 
 _MODE = {"functions": {}, "contexts": False, "raw": False}
